@@ -115,3 +115,11 @@ func RegexpOver(cands []string) *regexp.Regexp {
 	}
 	return regexp.MustCompile("^(" + strings.Join(alts, "|") + ")$")
 }
+
+// SetMapOrder chooses the order in which the symbolic executor iterates over
+// maps from here on ("" insertion order, "reverse", "rot"); natively Go's own
+// randomised order applies.
+func SetMapOrder(o string) {}
+
+// LocksHeld is the number of sync locks currently held (engine ghost counter).
+func LocksHeld() int { return 0 }
